@@ -79,6 +79,34 @@ def module_language(ctx, mod):
     return langs
 
 
+def check_grammar(ctx, out, mods, rule="C16.grammar"):
+    """Each grammar module builds its parser from the tree-sitter grammar of its own language."""
+    # each module uses a grammar of its own crate
+    m_ok = 0
+    EXPECT = {"bash": "bash", "c": "c", "c_sharp": "c_sharp", "cpp": "cpp", "css": "css", "go": "go", "html": "html", "java": "java", "javascript": "javascript",
+              "kotlin": "kotlin_ng", "makefile": "make", "markdown": "md", "php": "php", "python": "python", "ruby": "ruby", "rust": "rust", "sql": "sequel",
+              "swift": "swift", "toml": "toml_ng", "tsx": "typescript", "typescript": "typescript", "xml": "xml", "yaml": "yaml"}
+    for mod in mods:
+        langs = module_language(ctx, mod)
+        crates = {re.match(r"tree_sitter_(\w+)::", l).group(1) for l in langs}
+        want = EXPECT.get(mod)
+        ok = want in crates if want else bool(crates)
+        if mod == "markdown":
+            ok = ok and "html" in crates
+        elif len(crates) != 1:
+            ok = False
+        if mod == "tsx":
+            ok = ok and any(l.endswith("LANGUAGE_TSX") for l in langs)
+        if mod == "typescript":
+            ok = ok and any(l.endswith("LANGUAGE_TYPESCRIPT") for l in langs)
+        if ok:
+            m_ok += 1
+        else:
+            out.viol(rule, "%s|%s" % (rule, mod), "-", "grammar module `%s` builds its parser from %s; expected the tree_sitter_%s grammar" % (mod, sorted(langs), want))
+    out.inst(rule, m_ok, 23, ["%s<-%s" % (m, sorted(module_language(ctx, m))) for m in mods[:4]], exhaustive=True)
+
+
+
 def run(ctx, out, tier):
     lp, rows = extract_table(ctx)
     n = 0
@@ -103,29 +131,7 @@ def run(ctx, out, tier):
         out.note("suffixes registered beyond the documented 39: %s" % extra)
     mods = sorted(set(table.values()))
     out.inst("C16.table", n, 39, ["%s->%s" % kv for kv in sorted(table.items())[:8]], exhaustive=True, note="%d keys -> %d modules" % (len(table), len(mods)))
-    # each module uses a grammar of its own crate
-    m_ok = 0
-    EXPECT = {"bash": "bash", "c": "c", "c_sharp": "c_sharp", "cpp": "cpp", "css": "css", "go": "go", "html": "html", "java": "java", "javascript": "javascript",
-              "kotlin": "kotlin_ng", "makefile": "make", "markdown": "md", "php": "php", "python": "python", "ruby": "ruby", "rust": "rust", "sql": "sequel",
-              "swift": "swift", "toml": "toml_ng", "tsx": "typescript", "typescript": "typescript", "xml": "xml", "yaml": "yaml"}
-    for mod in mods:
-        langs = module_language(ctx, mod)
-        crates = {re.match(r"tree_sitter_(\w+)::", l).group(1) for l in langs}
-        want = EXPECT.get(mod)
-        ok = want in crates if want else bool(crates)
-        if mod == "markdown":
-            ok = ok and "html" in crates
-        elif len(crates) != 1:
-            ok = False
-        if mod == "tsx":
-            ok = ok and any(l.endswith("LANGUAGE_TSX") for l in langs)
-        if mod == "typescript":
-            ok = ok and any(l.endswith("LANGUAGE_TYPESCRIPT") for l in langs)
-        if ok:
-            m_ok += 1
-        else:
-            out.viol("C16.grammar", "C16.grammar|%s" % mod, "-", "grammar module `%s` builds its parser from %s; expected the tree_sitter_%s grammar" % (mod, sorted(langs), want))
-    out.inst("C16.grammar", m_ok, 23, ["%s<-%s" % (m, sorted(module_language(ctx, m))) for m in mods[:4]], exhaustive=True)
+    check_grammar(ctx, out, mods)
 
     # ------------------------------------------------------------------ lookup function(s)
     pfp = None
